@@ -14,6 +14,8 @@ def call_free(e):
     if k == "bin": return call_free(e[2]) and call_free(e[3])
     if k == "un": return call_free(e[2])
     if k == "cast": return call_free(e[1])
+    if k == "slit": return all(call_free(a) for a in e[2])
+    if k == "field": return call_free(e[1])
     return True
 
 def stmt_call_free(s):
@@ -21,6 +23,8 @@ def stmt_call_free(s):
     if k == "let": return call_free(s[3])
     if k == "assign": return call_free(s[2])
     if k == "cassign": return call_free(s[3])
+    if k == "assignf": return call_free(s[3])
+    if k == "cassignf": return call_free(s[4])
     if k == "print": return all(call_free(a) for a in s[1])
     return False
 
@@ -28,7 +32,7 @@ def assigned_vars(prog):
     out = set()
     def wb(b):
         for s in b:
-            if s[0] in ("assign", "cassign", "inc"): out.add(s[1])
+            if s[0] in ("assign", "cassign", "inc", "assignf", "cassignf"): out.add(s[1])
             elif s[0] == "if": wb(s[2]); wb(s[3])
             elif s[0] == "while": wb(s[2])
             elif s[0] == "block": wb(s[1])
@@ -46,14 +50,17 @@ def max_var(prog):
         elif e[0] == "bin": we(e[2]); we(e[3])
         elif e[0] == "un": we(e[2])
         elif e[0] == "cast": we(e[1])
-        elif e[0] == "call":
+        elif e[0] in ("call", "slit"):
             for a in e[2]: we(a)
+        elif e[0] == "field": we(e[1])
     def wb(b):
         for s in b:
             k = s[0]
             if k == "let": m[0] = max(m[0], s[1]); we(s[3])
             elif k == "assign": we(s[2])
             elif k == "cassign": we(s[3])
+            elif k == "assignf": we(s[3])
+            elif k == "cassignf": we(s[4])
             elif k == "if": we(s[1]); wb(s[2]); wb(s[3])
             elif k == "while": we(s[1]); wb(s[2])
             elif k == "for": m[0] = max(m[0], s[1]); we(s[3]); we(s[4]); wb(s[5])
